@@ -413,7 +413,8 @@ fn zero_header_at_boundary(img: &[u8], ents: &[&WalEntry]) -> bool {
     offs.iter().any(|&o| img.len() >= o + 16 && img[o..o + 16].iter().all(|b| *b == 0))
 }
 
-fn zero_headers_allowed() -> bool { std::env::var("VERIF_WAL_ZERO_HEADER").is_ok() }
+// zero-filled regions are part of the default damage family since /repo rejects length-0 entries (set VERIF_WAL_ZERO_HEADER=0 to skip them)
+fn zero_headers_allowed() -> bool { std::env::var("VERIF_WAL_ZERO_HEADER").map(|v| v != "0").unwrap_or(true) }
 
 fn run_damage_case<L: Lab>(lab: &mut L, lay: &Layout, dmg: &[Dmg], t: u64, post: &[WalEntry]) -> Option<Found> { run_damage_case_z(lab, lay, dmg, t, post, zero_headers_allowed()) }
 
